@@ -52,6 +52,13 @@ claim("C12",
       "are cryptographic two-party properties outside function contracts.",
       "DESIGN.md §4 C12")
 
+claim("C13",
+      "Proof that the only place a magnet torrent adopts metadata is guarded, on every path, by: the adopted info is the "
+      "parse of exactly the byte slice whose single SHA-1 (ghost-tracked hash input) compared equal to the torrent's "
+      "info-hash, and it is not private; whole-program whitelist of writers of the info field. Partial: eventual success "
+      "with an honest peer and the magnet string round trip are outside.",
+      "DESIGN.md §4 C13")
+
 na("C10", "liveness/progress over unbounded schedules of several goroutines: a function contract cannot state fairness or progress measures (DESIGN.md §4 C10)")
 na("C20", "data races and lock-ups quantify over schedules; the contracts are sequential and assume the single-owner discipline C20 asks to prove (DESIGN.md §4 C20)")
 for p in ["C01", "C02", "C04", "C05", "C06", "C07", "C08", "C09", "C11", "C12", "C13", "C14", "C15", "C17", "C18", "C19"]:
